@@ -23,6 +23,8 @@ import (
 func init() {
 	cf := "internal/backends/compiler_wat/compile_func.go"
 	register(&Property{ID: "C16", Run: runC16, Mutants: []Mutant{
+		{Name: "a block that jumps to itself leaves through a label that is not in scope", File: "internal/backends/compiler_wat/compile_func.go", Old: "\tif cur >= dest {\n\t\tinsts = g.module.EmitAssginValue(g.var_block_selector", New: "\tif cur > dest {\n\t\tinsts = g.module.EmitAssginValue(g.var_block_selector", Expect: "jump-direction"},
+		{Name: "complex64 division calls the complex128 helper", File: "internal/backends/compiler_wat/wir/value_complex64.go", Old: "wat.NewInstCall(\"$wa.runtime.complex64_Div\")", New: "wat.NewInstCall(\"$wa.runtime.complex128_Div\")", Expect: "complex-helper-width"},
 		{Name: "rune/i32 assignment accepted in one direction only", File: "internal/backends/compiler_wat/wir/instruction_emitter.go", Old: "!(lh.Type().Equal(m.I32) && rh.Type().Equal(m.RUNE) || lh.Type().Equal(m.RUNE) && rh.Type().Equal(m.I32))", New: "!(lh.Type().Equal(m.RUNE) && rh.Type().Equal(m.I32))", Expect: "assign-compat-symmetric"},
 		{Name: "deferred static call pops its discarded results first-to-last", File: cf, Old: "\t\t\tfor i := range rets {\n\t\t\t\tj := len(rets) - i - 1\n\t\t\t\tret := wir.NewLocal(\"r\"+strconv.Itoa(j), rets[j])", New: "\t\t\tfor i, rt := range rets {\n\t\t\t\tret := wir.NewLocal(\"r\"+strconv.Itoa(i), rt)", Nth: 1, Expect: "result-pop-order"},
 		{Name: "MapUpdate arm dropped", File: cf, Old: "\tcase *ssa.MapUpdate:\n\t\tinsts = append(insts, g.module.EmitGenMapUpdate(g.getValue(inst.Map).value, g.getValue(inst.Key).value, g.getValue(inst.Value).value)...)\n", New: "", Expect: "ir-exhaustive :: ssa.MapUpdate"},
@@ -60,8 +62,10 @@ func runC16(c *Ctx) {
 	c16IR(c, p, bk, ssap, ldp)
 	c16ConstKinds(c, p, bk)
 	c16ResultPopOrder(c, p, bk)
+	c16JumpDirection(c, p, bk)
 	if wp := p.MustPkg("assign-compat-symmetric", "internal/backends/compiler_wat/wir"); wp != nil {
 		c16AssignCompat(c, p, wp)
+		c16ComplexHelperWidth(c, p, wp)
 	}
 	c16Linkage(c, p, cfgp)
 	c16FatalInventory(c, p)
